@@ -59,23 +59,28 @@ theorem dumpLoop_eq (rr : RowReader) (tables : List (Nat × TableInfo)) (attrs :
   | nil => rfl
   | cons k ks ih =>
     simp only [collectM, filterMap_cons]
-    unfold dumpOne
+    rw [ih]
     cases hg : mapGet tables k with
     | none =>
+      have hstep : dumpOne rr tables attrs reader o k = .ok none := by unfold dumpOne; rw [hg]; rfl
+      rw [hstep]
       simp only [ok_bind, pure_eq_ok]
-      rw [ih]
-      cases collectM _ _ <;> rfl
+      generalize collectM _ _ = X
+      cases X <;> rfl
     | some info =>
       have hfn : info.filenode = k := hk _ (lookup_mem tables k info hg)
-      simp only
       by_cases hkeep : keepTable o info = true
-      · rw [if_pos hkeep, filter_cons, if_pos hkeep]
-        simp only [collectM, hfn]
-        rw [ih]
-      · rw [if_neg hkeep, filter_cons, if_neg hkeep]
+      · have hstep : dumpOne rr tables attrs reader o k =
+            (do let t ← dumpTable rr k info ((mapGet attrs info.oid).getD []) reader o; pure (some t)) := by
+          unfold dumpOne; rw [hg]; simp only; rw [if_pos hkeep]
+        rw [hstep]
+        simp only [filter_cons, hkeep, if_true, collectM, hfn]
+      · have hstep : dumpOne rr tables attrs reader o k = .ok none := by
+          unfold dumpOne; rw [hg]; simp only; rw [if_neg hkeep]; rfl
+        rw [hstep, filter_cons, if_neg hkeep]
         simp only [ok_bind, pure_eq_ok]
-        rw [ih]
-        cases collectM _ _ <;> rfl
+        generalize collectM _ _ = X
+        cases X <;> rfl
 
 /-- the kept TableInfos of a database whose pg_class map holds the live rows with storage: the ordinary tables
 passing the filters, in filenode order -/
@@ -104,5 +109,632 @@ theorem kept_infos (π : MapOrder TableInfo) (hπ : ∀ l, π l ~ l) (o : Option
     unfold Spec.selectedRel
     cases (r.filenode != 0) <;> simp
   rw [hsel]
+
+
+
+/-! ### type names -/
+
+/-- **The tool's type names are PostgreSQL's** for every type oid the specification names. -/
+theorem typeNames_agree : ∀ p ∈ Spec.typeNames, Model.typeName (p.1 : Int) = strBytes p.2 := by
+  simp only [Model.typeName, Model.typeName.lookupOid', strBytes_eq]
+  decide
+
+theorem typeName_spec (n : Nat) (x : Bytes) (h : Spec.typeName n = some x) : Model.typeName (n : Int) = x := by
+  unfold Spec.typeName at h
+  cases hl : Spec.typeNames.lookup n with
+  | none => simp [hl] at h
+  | some s =>
+    simp only [hl, Option.map_some, Option.some.injEq] at h
+    subst h
+    exact typeNames_agree (n, s) (lookup_mem _ n s hl)
+
+/-- does the specification name this type oid?  (for the others `Spec.expectedTable` leaves the type name empty and
+the comparison ignores the tool's text) -/
+def specKnows (typid : Int) : Bool := decide (typid ≥ 0) && (Spec.typeName typid.toNat).isSome
+
+def normCol (c : ColumnInfo) : ColumnInfo := { c with typ := if specKnows c.typid then c.typ else [] }
+def normTable (t : TableDump) : TableDump := { t with columns := t.columns.map normCol }
+def normDb (d : DatabaseDump) : DatabaseDump := { d with tables := d.tables.map normTable }
+
+theorem normCol_attr (ab : AttrRow → UInt8) (a : AttrRow) :
+    normCol ⟨(attrInfoOf ab a).name, Model.typeName (attrInfoOf ab a).typid, (attrInfoOf ab a).typid⟩ =
+      ⟨a.name, (Spec.typeName a.typid).getD [], a.typid⟩ := by
+  unfold normCol specKnows attrInfoOf
+  simp only [Int.toNat_natCast]
+  have h0 : decide ((a.typid : Int) ≥ 0) = true := by simp
+  rw [h0, Bool.true_and]
+  cases hx : Spec.typeName a.typid with
+  | none => simp
+  | some x => simp [typeName_spec a.typid x hx]
+
+/-! ### user heaps through ReadRows -/
+
+theorem expectedCols_cons (val : Bytes → Int → M GoVal) (c : Col) (cs : List Col) (v : Option Datum) (vs : List (Option Datum)) (k : Nat) :
+    expectedCols val (c :: cs) (v :: vs) k =
+      ((match k, v with | _ + 1, some d => expectedVal val c d | _, _ => pure GoVal.nil) >>= fun x =>
+        expectedCols val cs vs (k - 1) >>= fun rest => pure ((c.name, x) :: rest)) := by
+  cases k <;> cases v <;> rfl
+
+theorem expectedCols_names (val : Bytes → Int → M GoVal) : ∀ (cols : List Col) (vals : List (Option Datum)) (k : Nat)
+    (ps : List (Bytes × GoVal)), vals.length = cols.length → expectedCols val cols vals k = .ok ps →
+    ps.map (·.1) = cols.map (·.name)
+  | [], [], _, ps, _, h => by simp [expectedCols] at h; subst h; rfl
+  | [], _ :: _, _, _, hl, _ => by simp at hl
+  | _ :: _, [], _, _, hl, _ => by simp at hl
+  | c :: cs, v :: vs, k, ps, hl, h => by
+    rw [expectedCols_cons] at h
+    generalize (match k, v with | _ + 1, some d => expectedVal val c d | _, _ => pure GoVal.nil) = X at h
+    cases X with
+    | error e => simp at h
+    | ok x =>
+      simp only [ok_bind] at h
+      cases hr : expectedCols val cs vs (k - 1) with
+      | error e => simp [hr] at h
+      | ok rest =>
+        simp only [hr, ok_bind, pure_eq_ok] at h
+        injection h with h
+        subst h
+        simp only [map_cons]
+        rw [expectedCols_names val cs vs (k - 1) rest (by simpa using hl) hr]
+
+theorem heap_flatten (cols : List Col) (pages : List (List RowV)) :
+    (pages.map fun pg => pg.map (formTuple cols)).flatten = pages.flatten.map (formTuple cols) := by
+  rw [map_flatten]
+
+theorem heap_tuples_WF (cols : List Col) (pages : List (List RowV)) (hwf : ∀ pg ∈ pages, ∀ r ∈ pg, r.WF cols) :
+    ∀ ts ∈ (pages.map fun pg => pg.map (formTuple cols)), ∀ t ∈ ts, t.WF := by
+  intro ts hts t ht
+  obtain ⟨pg, hpg, rfl⟩ := mem_map.mp hts
+  obtain ⟨r, hr, rfl⟩ := mem_map.mp ht
+  exact formTuple_WF cols r (hwf pg hpg r hr)
+
+/-- **ReadRows on a user heap**: the live row versions, each decoded to the expected row -/
+theorem readRows_heap (dec : Dec) (cols : List Col) (mcols : List Column) (pages : List (List RowV))
+    (hm : ColsMatch 0 mcols cols) (hne : mcols ≠ []) (hwf : ∀ pg ∈ pages, ∀ r ∈ pg, r.WF cols)
+    (hfit : pagesFit (pages.map fun pg => pg.map (formTuple cols))) (hnd : (cols.map (·.name)).Nodup)
+    (rows : List Row) (h : readRows dec (encRowPages cols pages) mcols true = .ok rows) :
+    rows = (liveRows pages cols).map (rowOf (varlenaVal dec) cols) := by
+  unfold encRowPages at h
+  rw [readRows_pages dec _ mcols true (heap_tuples_WF cols pages hwf) hfit, heap_flatten, filter_map,
+    ← PgVerif.Proofs.Rows.collectM_map] at h
+  have hf : ((fun t : Tuple => !true || liveBits t.infomask) ∘ formTuple cols) = fun r => liveBits (formTuple cols r).infomask := by
+    funext r; simp [Function.comp]
+  rw [hf] at h
+  have := collectM_filterMap_spec _ id (fun r => some (rowOf (varlenaVal dec) cols r)) _ rows h ?_
+  · simpa [liveRows] using this
+  · intro r hr y hy
+    have hw : r.WF cols := by
+      obtain ⟨pg, hpg, hrp⟩ := mem_flatten.mp (mem_filter.mp hr).1
+      exact hwf pg hpg r hrp
+    rw [mtuple_formTuple cols r hw, PgVerif.Props.C03.C03_decodeTuple dec cols mcols r _ hm hw hne] at hy
+    cases he : expectedCols (varlenaVal dec) cols r.vals r.natts with
+    | error e => simp [he] at hy
+    | ok ps =>
+      simp only [he, ok_bind, pure_eq_ok] at hy
+      injection hy with hy
+      subst hy
+      have hn := expectedCols_names _ cols r.vals r.natts ps hw.1 he
+      rw [PgVerif.Props.C03.C03_entries ps (by rw [hn]; exact hnd)]
+      simp [rowOf, rowView, he]
+
+/-- a heap without live rows read with any schema gives no rows -/
+theorem readRows_nolive (dec : Dec) (cols : List Col) (mcols : List Column) (pages : List (List RowV))
+    (hwf : ∀ pg ∈ pages, ∀ r ∈ pg, r.WF cols) (hfit : pagesFit (pages.map fun pg => pg.map (formTuple cols)))
+    (hlive : liveRows pages cols = []) : readRows dec (encRowPages cols pages) mcols true = .ok [] := by
+  unfold encRowPages
+  rw [readRows_pages dec _ mcols true (heap_tuples_WF cols pages hwf) hfit, heap_flatten, filter_map]
+  have hf : ((fun t : Tuple => !true || liveBits t.infomask) ∘ formTuple cols) = fun r => liveBits (formTuple cols r).infomask := by
+    funext r; simp [Function.comp]
+  rw [hf]
+  unfold liveRows at hlive
+  rw [hlive]
+  rfl
+
+theorem encRowPages_length (cols : List Col) (pages : List (List RowV)) (hwf : ∀ pg ∈ pages, ∀ r ∈ pg, r.WF cols)
+    (hfit : pagesFit (pages.map fun pg => pg.map (formTuple cols))) : (encRowPages cols pages).length = 8192 * pages.length := by
+  unfold encRowPages
+  rw [encTuplePages_length _ (heap_tuples_WF cols pages hwf) hfit, length_map]
+
+/-! ### the columns handed to ReadRows -/
+
+/-- attnums 1, 2, 3, … without gaps (every real relation: dropped columns keep their pg_attribute row) -/
+def DenseFrom : Nat → List AttrRow → Prop
+  | _, [] => True
+  | i, a :: as => a.num = (i : Int) + 1 ∧ DenseFrom (i + 1) as
+
+/-- the `Column` dumpTable builds for an attribute -/
+def toolColumn (ab : AttrRow → UInt8) (a : AttrRow) : Column := ⟨a.name, a.typid, a.len, a.num, (ab a).toNat⟩
+
+theorem colsMatch_attrs (ab : AttrRow → UInt8) : ∀ (i : Nat) (as : List AttrRow), DenseFrom i as →
+    (∀ a ∈ as, colAlign (toolColumn ab a) = a.align) → ColsMatch i (as.map (toolColumn ab)) (as.map attrCol)
+  | _, [], _, _ => trivial
+  | i, a :: as, hd, ha => by
+    refine ⟨⟨rfl, rfl, rfl, Or.inr hd.1, ha a (by simp)⟩, colsMatch_attrs ab (i + 1) as hd.2 (fun x hx => ha x (by simp [hx]))⟩
+
+
+
+/-! ### one table -/
+
+theorem relOfFilenode_eq (cls : HeapOf ClassRow) (r : ClassRow) (hr : r ∈ cls.live) (hf : r.filenode ≠ 0)
+    (hnd : ((cls.live.filter (·.filenode != 0)).map (·.filenode)).Nodup) : relOfFilenode cls r.filenode = some r := by
+  unfold relOfFilenode
+  cases hfind : cls.live.find? (fun x => decide (x.filenode = r.filenode)) with
+  | none =>
+    have := find?_eq_none.mp hfind r hr
+    simp at this
+  | some r' =>
+    have hp : r'.filenode = r.filenode := by simpa using find?_some hfind
+    have hm : r' ∈ cls.live := mem_of_find?_eq_some hfind
+    have hinj := nodup_map_inj ClassRow.filenode _ hnd
+    have h1 : r' ∈ cls.live.filter (·.filenode != 0) := mem_filter.mpr ⟨hm, by simpa [hp] using hf⟩
+    have h2 : r ∈ cls.live.filter (·.filenode != 0) := mem_filter.mpr ⟨hr, by simpa using hf⟩
+    rw [hinj r' h1 r h2 hp]
+
+/-- what lets the tool read the heap of relation `r` correctly: attnums without gaps, the alignment it falls back to
+is the true one (else finding A03), and a table without columns has no live row (else finding A01z) -/
+structure RelReadable (l : Layout) (d : DbContent) (r : ClassRow) : Prop where
+  dense : DenseFrom 0 (userAttrs d.att r.oid)
+  aligned : ∀ a ∈ userAttrs d.att r.oid, colAlign (toolColumn (toolAlignByte l) a) = a.align
+  nonempty : userAttrs d.att r.oid = [] → ∀ pages, d.heaps.lookup r.filenode = some pages → liveRows pages [] = []
+
+/-- the rows the specification expects for relation `r` -/
+def specRows (val : Spec.Val) (d : DbContent) (o : Options) (r : ClassRow) : List DRow :=
+  if o.listOnly then []
+  else match d.heaps.lookup r.filenode with
+    | some pages => (liveRows pages ((userAttrs d.att r.oid).map attrCol)).map (rowOf val ((userAttrs d.att r.oid).map attrCol))
+    | none => []
+
+def specCols (d : DbContent) (r : ClassRow) : List ColumnInfo :=
+  (userAttrs d.att r.oid).map fun a => ⟨a.name, (Spec.typeName a.typid).getD [], a.typid⟩
+
+theorem expectedTable_eq (val : Spec.Val) (d : DbContent) (o : Options) (r : ClassRow) :
+    expectedTable val d o r =
+      { oid := r.oid, name := r.name, filenode := r.filenode, kind := [114], columns := specCols d r,
+        rows := specRows val d o r, rowCount := (specRows val d o r).length } := rfl
+
+theorem table_eq (r : ClassRow) (hk : r.kind = 114) (colsM : List ColumnInfo) (sc : List ColumnInfo) (R R' : List DRow)
+    (hc : colsM.map normCol = sc) (hR : R = R') :
+    normTable { oid := (infoOfRel r).oid, name := (infoOfRel r).name, filenode := r.filenode, kind := (infoOfRel r).kind,
+                columns := colsM, rows := R, rowCount := R.length } =
+      { oid := r.oid, name := r.name, filenode := r.filenode, kind := [114], columns := sc, rows := R', rowCount := R'.length } := by
+  subst hR hc
+  simp only [normTable, infoOfRel, hk]
+  rfl
+
+theorem modelCols_norm (ab : AttrRow → UInt8) (as : List AttrRow) :
+    (((as.map (attrInfoOf ab)).map fun a => (⟨a.name, Model.typeName a.typid, a.typid⟩ : ColumnInfo)).map normCol) =
+      as.map fun a => ⟨a.name, (Spec.typeName a.typid).getD [], a.typid⟩ := by
+  rw [map_map, map_map]
+  apply map_congr_left
+  intro a _
+  exact normCol_attr ab a
+
+theorem lookup_mem' {β} (m : List (Nat × β)) (k : Nat) (v : β) (h : m.lookup k = some v) : (k, v) ∈ m :=
+  lookup_mem m k v h
+
+/-- **One table, in full.**  For a live ordinary table `r` of a well-formed database whose columns the catalog pass
+got right, dumpTable with the real row reader returns the specification's table: oid, name, filenode, kind, the
+columns (name, type oid; type name where the specification has one) and — unless schema-only — exactly the live rows
+of its heap file, decoded. -/
+theorem dumpTable_spec (dec : Dec) (l : Layout) (d : DbContent) (o : Options) (r : ClassRow) (rd : FileReader)
+    (hr : r ∈ d.cls.live) (hkind : r.kind = 114) (hfn : r.filenode ≠ 0) (hwf : d.WF l)
+    (hreader : o.listOnly = false →
+      rd r.filenode = (d.heaps.lookup r.filenode).map (encRowPages (colsOfFilenode d r.filenode)))
+    (hok : ∀ pages, d.heaps.lookup r.filenode = some pages → o.listOnly = false → pages ≠ [] → RelReadable l d r)
+    (t : TableDump)
+    (h : dumpTable (readRows dec) r.filenode (infoOfRel r) ((userAttrs d.att r.oid).map (attrInfoOf (toolAlignByte l))) (some rd) o = .ok t) :
+    normTable t = expectedTable (varlenaVal dec) d o r := by
+  obtain ⟨_, _, hfnd, _, _, _, _, _, _, hheaps⟩ := hwf
+  rw [expectedTable_eq]
+  have hcols := modelCols_norm (toolAlignByte l) (userAttrs d.att r.oid)
+  have hcf : colsOfFilenode d r.filenode = (userAttrs d.att r.oid).map attrCol := by
+    unfold colsOfFilenode
+    rw [relOfFilenode_eq d.cls r hr hfn hfnd]
+  unfold dumpTable at h
+  simp only at h
+  cases hl : o.listOnly with
+  | true =>
+    simp only [hl, if_true] at h
+    injection h with h; subst h
+    exact table_eq r hkind _ _ [] _ hcols (by simp [specRows, hl])
+  | false =>
+    simp only [hl, Bool.false_eq_true, if_false] at h
+    · have hrd := hreader hl
+      cases hlk : d.heaps.lookup r.filenode with
+      | none =>
+        rw [hlk] at hrd
+        simp only [Option.map_none] at hrd
+        simp only [hrd] at h
+        injection h with h; subst h
+        exact table_eq r hkind _ _ [] _ hcols (by simp [specRows, hl, hlk])
+      | some pages =>
+        rw [hlk] at hrd
+        simp only [Option.map_some] at hrd
+        simp only [hrd] at h
+        obtain ⟨_, hnames, hrows, hfit⟩ := hheaps (r.filenode, pages) (lookup_mem' _ _ _ hlk)
+        simp only at hnames hrows hfit
+        rw [hcf] at hnames hrows hfit h
+        have hlen := encRowPages_length _ pages (fun pg hpg r' hr' => (hrows pg hpg r' hr').1) hfit
+        by_cases hd0 : (encRowPages ((userAttrs d.att r.oid).map attrCol) pages).length = 0
+        · rw [if_pos hd0] at h
+          injection h with h; subst h
+          have hp : pages = [] := by
+            rw [hlen] at hd0
+            cases pages with
+            | nil => rfl
+            | cons _ _ => simp at hd0
+          exact table_eq r hkind _ _ [] _ hcols (by simp [specRows, hl, hlk, hp, liveRows])
+        · rw [if_neg hd0] at h
+          have hpne : pages ≠ [] := by
+            intro hp; apply hd0; rw [hlen, hp]; rfl
+          have hrd' := hok pages hlk hl hpne
+          have hmc : ((userAttrs d.att r.oid).map (attrInfoOf (toolAlignByte l))).map
+              (fun a => (⟨a.name, a.typid, a.len, a.num, a.align⟩ : Column)) =
+              (userAttrs d.att r.oid).map (toolColumn (toolAlignByte l)) := by
+            rw [map_map]; rfl
+          rw [hmc] at h
+          cases hrr : readRows dec (encRowPages ((userAttrs d.att r.oid).map attrCol) pages)
+              ((userAttrs d.att r.oid).map (toolColumn (toolAlignByte l))) true with
+          | error e => simp [hrr] at h
+          | ok rows =>
+            simp only [hrr, ok_bind, pure_eq_ok] at h
+            injection h with h; subst h
+            refine table_eq r hkind _ _ rows _ hcols ?_
+            simp only [specRows, hl, hlk, Bool.false_eq_true, if_false]
+            by_cases hempty : userAttrs d.att r.oid = []
+            · have hlive := hrd'.nonempty hempty pages hlk
+              rw [hempty] at hrr ⊢
+              simp only [map_nil] at hrr ⊢
+              rw [hempty] at hrows hfit
+              rw [readRows_nolive dec [] [] pages (fun pg hpg r' hr' => (hrows pg hpg r' hr').1) hfit hlive] at hrr
+              injection hrr with hrr
+              rw [← hrr, hlive]; rfl
+            · exact readRows_heap dec _ _ pages
+                (colsMatch_attrs (toolAlignByte l) 0 _ hrd'.dense hrd'.aligned)
+                (by intro hm; exact hempty (map_eq_nil_iff.mp hm))
+                (fun pg hpg r' hr' => (hrows pg hpg r' hr').1) hfit hnames rows hrr
+
+
+
+/-! ### one database -/
+
+theorem selectedRel_kind (o : Options) (r : ClassRow) (h : selectedRel o r = true) : r.kind = 114 ∧ r.filenode ≠ 0 := by
+  unfold selectedRel at h
+  simp only [Bool.and_eq_true, beq_iff_eq, bne_iff_ne] at h
+  exact ⟨h.1.1.1, h.1.1.2⟩
+
+theorem expectedDb_tables (val : Spec.Val) (o : Options) (db : DbRow) (d : DbContent) :
+    (expectedDb val o db d).tables =
+      (sortBy ClassRow.filenode (d.cls.live.filter (selectedRel o))).map (expectedTable val d o) := by
+  unfold expectedDb
+  simp only
+  rw [sortTables_eq, sortBy_map (expectedTable val d o) ClassRow.filenode TableDump.filenode (fun _ => rfl)]
+
+/-- the pg_class / pg_attribute side conditions of `DbContent.WF`, in the form the catalog lemmas take them -/
+theorem dbWF_parts (l : Layout) (d : DbContent) (hwf : d.WF l) :
+    (∀ s ∈ d.cls.versions, nameOK s.val.name ∧ s.val.oid < 2 ^ 32 ∧ s.val.filenode < 2 ^ 32 ∧ s.infomask < 65536) ∧
+    AttHeapWF l d.att ∧ (∀ r ∈ d.cls.live, r.kind < 256) ∧ (∀ r ∈ d.cls.live, 0 < r.oid) := by
+  obtain ⟨_, _, _, hcls, _, hatt, _, hfita, _, _⟩ := hwf
+  refine ⟨fun s hs => ⟨(hcls s hs).1, (hcls s hs).2.1, (hcls s hs).2.2.2.1, (hcls s hs).2.2.2.2.2⟩, ⟨fun s hs => ?_, hfita⟩, ?_, ?_⟩
+  · obtain ⟨h1, _, h3, h4, h5, h6, h7, h8, h9, _⟩ := hatt s hs
+    exact ⟨⟨h1, h3, h4, ⟨h5, h6⟩, ⟨h7, h8⟩⟩, h9⟩
+  · intro r hr
+    obtain ⟨s, hs, rfl⟩ := live_mem_versions d.cls r hr
+    exact (hcls s hs).2.2.2.2.1
+  · intro r hr
+    obtain ⟨s, hs, rfl⟩ := live_mem_versions d.cls r hr
+    exact (hcls s hs).2.2.1
+
+/-- **The catalog pass of DumpDatabaseFromFiles.**  On the encoded pg_class / pg_attribute of a well-formed database,
+with the real row reader, the function is the loop of dumpTable over the ordinary tables passing the filters — each
+once, in filenode order — each called with the relation's columns: the live pg_attribute rows of its oid with
+attnum > 0, in attnum order.  For every file reader (or none), every iteration order of the table map. -/
+theorem dumpDatabase_tables (dec : Dec) (hd : CatDec dec) (π : MapOrder TableInfo) (hπ : ∀ l, π l ~ l) (l : Layout)
+    (d : DbContent) (o : Options) (reader : Option FileReader) (hwf : d.WF l) (hs : SchemaOK l d.att o.pgVersion) :
+    dumpDatabaseFromFiles (readRows dec) π (encHeapOf pgClassCols classVals d.cls)
+        (encHeapOf (pgAttributeCols l) (attrVals l) d.att) reader o =
+      collectM (fun r : ClassRow => do
+          let t ← dumpTable (readRows dec) r.filenode (infoOfRel r)
+            ((userAttrs d.att r.oid).map (attrInfoOf (toolAlignByte l))) reader o
+          pure (some t))
+        (sortBy ClassRow.filenode (d.cls.live.filter (selectedRel o))) := by
+  obtain ⟨hcls, haw, hkind, hoid⟩ := dbWF_parts l d hwf
+  obtain ⟨_, _, hfnd, _, hattnd, _, hfitc, _, _, _⟩ := hwf
+  obtain ⟨rows, hrows_ok, hrows⟩ := readRows_class dec hd d.cls hcls hfitc
+  obtain ⟨tables, ht, hvals⟩ := parsePGClass_live (readRows dec) _ rows d.cls.live hrows_ok hrows hfnd
+  have hk := parsePGClass_keysOK (readRows dec) _ tables ht
+  obtain ⟨attrs, ha, hattrs⟩ := parsePGAttribute_enc dec hd l d.att o.pgVersion haw hs hattnd
+  unfold dumpDatabaseFromFiles
+  simp only [ht, ha, ok_bind]
+  rw [dumpLoop_eq _ tables attrs reader o hk.2, kept_infos π hπ o tables hk d.cls.live hvals hfnd hkind,
+    ← PgVerif.Proofs.Rows.collectM_map infoOfRel]
+  apply collectM_congr
+  intro r hr
+  have hmem := mem_filter.mp ((sortBy_perm _ _).subset hr)
+  have hat : (mapGet attrs (infoOfRel r).oid).getD [] = (userAttrs d.att r.oid).map (attrInfoOf (toolAlignByte l)) :=
+    hattrs r.oid (hoid r hmem.1)
+  rw [hat]
+  rfl
+
+/-- **One database, in full.**  DumpDatabaseFromFiles with the real row reader on the encoded pg_class / pg_attribute
+of a well-formed database and a file reader that serves the encoded heaps returns the specification's tables —
+which, in which order, with which columns and rows. -/
+theorem dumpDatabase_spec (dec : Dec) (hd : CatDec dec) (π : MapOrder TableInfo) (hπ : ∀ l, π l ~ l) (l : Layout)
+    (d : DbContent) (o : Options) (db : DbRow) (rd : FileReader) (hwf : d.WF l) (hs : SchemaOK l d.att o.pgVersion)
+    (hreader : ∀ r ∈ d.cls.live, selectedRel o r = true → o.listOnly = false →
+      rd r.filenode = (d.heaps.lookup r.filenode).map (encRowPages (colsOfFilenode d r.filenode)))
+    (hok : ∀ r ∈ d.cls.live, selectedRel o r = true → ∀ pages, d.heaps.lookup r.filenode = some pages →
+      o.listOnly = false → pages ≠ [] → RelReadable l d r)
+    (ts : List TableDump)
+    (h : dumpDatabaseFromFiles (readRows dec) π (encHeapOf pgClassCols classVals d.cls)
+          (encHeapOf (pgAttributeCols l) (attrVals l) d.att) (some rd) o = .ok ts) :
+    ts.map normTable = (expectedDb (varlenaVal dec) o db d).tables := by
+  rw [dumpDatabase_tables dec hd π hπ l d o (some rd) hwf hs] at h
+  rw [expectedDb_tables]
+  refine collectM_some_spec _ normTable (expectedTable (varlenaVal dec) d o) _ ts h ?_
+  intro r hr t ht'
+  have hmem := mem_filter.mp ((sortBy_perm _ _).subset hr)
+  obtain ⟨hk114, hfn0⟩ := selectedRel_kind o r hmem.2
+  exact dumpTable_spec dec l d o r rd hmem.1 hk114 hfn0 hwf (hreader r hmem.1 hmem.2) (hok r hmem.1 hmem.2) t ht'
+
+/-- the identity and the columns of a dumped table, type names the specification does not have blanked -/
+def tableCols (t : TableDump) : (Nat × Bytes × Nat × Bytes) × List ColumnInfo := (tableKey t, t.columns.map normCol)
+
+/-- **The columns of every dumped table** — no assumption on the heap files or the file reader. -/
+theorem dumpDatabase_columns (dec : Dec) (hd : CatDec dec) (π : MapOrder TableInfo) (hπ : ∀ l, π l ~ l) (l : Layout)
+    (d : DbContent) (o : Options) (db : DbRow) (val : Spec.Val) (reader : Option FileReader) (hwf : d.WF l)
+    (hs : SchemaOK l d.att o.pgVersion) (ts : List TableDump)
+    (h : dumpDatabaseFromFiles (readRows dec) π (encHeapOf pgClassCols classVals d.cls)
+          (encHeapOf (pgAttributeCols l) (attrVals l) d.att) reader o = .ok ts) :
+    ts.map tableCols = (expectedDb val o db d).tables.map fun t => (tableKey t, t.columns) := by
+  rw [dumpDatabase_tables dec hd π hπ l d o reader hwf hs] at h
+  rw [expectedDb_tables, map_map]
+  refine collectM_some_spec _ tableCols _ _ ts h ?_
+  intro r hr t ht'
+  have hmem := mem_filter.mp ((sortBy_perm _ _).subset hr)
+  obtain ⟨hk114, _⟩ := selectedRel_kind o r hmem.2
+  obtain ⟨s1, s2, s3, s4, s5, _, _⟩ := dumpTable_shape _ _ _ _ reader o t ht'
+  simp only [Function.comp, tableCols, tableKey, s1, s2, s3, s4, s5, expectedTable_eq, infoOfRel, hk114]
+  rw [modelCols_norm]
+  rfl
+
+/-! ### the data directory -/
+
+/-- the file tree a reader sees is the one the cluster is encoded into (`Spec.fsOf c` is one, see `treeOf_fsOf`) -/
+structure TreeOf (c : Cluster) (fs : Bytes → Option Bytes) : Prop where
+  global : fs pathGlobal1262 = some (encHeapOf (pgDatabaseCols c.pgVersion) (dbVals c.pgVersion) c.dbs)
+  cls : ∀ oid d, c.content.lookup oid = some d → fs (basePath oid 1259) = some (encHeapOf pgClassCols classVals d.cls)
+  att : ∀ oid d, c.content.lookup oid = some d →
+    fs (basePath oid 1249) = some (encHeapOf (pgAttributeCols c.layout) (attrVals c.layout) d.att)
+  heap : ∀ oid d, c.content.lookup oid = some d → ∀ fn, fn ≠ 1259 → fn ≠ 1249 → d.raws.lookup fn = none →
+    fs (basePath oid fn) = (d.heaps.lookup fn).map (encRowPages (colsOfFilenode d fn))
+  missing : ∀ oid, c.content.lookup oid = none → fs (basePath oid 1259) = none
+
+/-- what the tool needs of a database (beyond `DbContent.WF`) to dump it under options `o`: the pg_attribute schema
+choice works out (else A04), the ordinary tables it dumps do not share a file name with a catalog or a non-heap
+relation, and their heaps are readable (else A03 / A01z) -/
+structure DbDumpable (l : Layout) (d : DbContent) (o : Options) : Prop where
+  schema : SchemaOK l d.att o.pgVersion
+  files : ∀ r ∈ d.cls.live, selectedRel o r = true → r.filenode ≠ 1259 ∧ r.filenode ≠ 1249 ∧ d.raws.lookup r.filenode = none
+  readable : ∀ r ∈ d.cls.live, selectedRel o r = true → ∀ pages, d.heaps.lookup r.filenode = some pages →
+    o.listOnly = false → pages ≠ [] → RelReadable l d r
+
+theorem encHeapOf_length {α} (cols : List Col) (vals : α → List (Option Datum)) (h : HeapOf α)
+    (hwf : ∀ s ∈ h.versions, RowV.WF cols ⟨vals s.val, cols.length, s.infomask⟩)
+    (hfit : pagesFit (h.map fun pg => pg.map fun s => formRow cols (vals s.val) s.infomask)) :
+    (encHeapOf cols vals h).length = 8192 * h.length := by
+  unfold encHeapOf
+  rw [encTuplePages_length _ ?_ hfit, length_map]
+  intro ts hts t ht
+  obtain ⟨pg, hpg, rfl⟩ := mem_map.mp hts
+  obtain ⟨s, hs, rfl⟩ := mem_map.mp ht
+  exact formTuple_WF cols _ (hwf s (by unfold HeapOf.versions; exact mem_flatten.mpr ⟨pg, hpg, hs⟩))
+
+theorem lookup_mem_pair {β} (m : List (Nat × β)) (k : Nat) (v : β) (h : m.lookup k = some v) : (k, v) ∈ m :=
+  lookup_mem m k v h
+
+/-- the loop body of DumpDataDir for one database: skipped, or the tables of DumpDatabaseFromFiles on its files -/
+theorem dumpDb_cases (rr : RowReader) (π : MapOrder TableInfo) (fs : Bytes → Option Bytes) (o : Options) (db : DbRow)
+    (y : Option DatabaseDump) (h : dumpDb rr π fs o ⟨db.oid, db.name⟩ = .ok y) :
+    (selectedDb o db = true ∧ ((fs (basePath db.oid 1259)).getD []).length ≠ 0 ∧
+      ∃ ts, dumpDatabaseFromFiles rr π ((fs (basePath db.oid 1259)).getD []) ((fs (basePath db.oid 1249)).getD [])
+        (some fun fn => fs (basePath db.oid fn)) o = .ok ts ∧ y = some ⟨db.oid, db.name, ts⟩) ∨
+    ((selectedDb o db = false ∨ ((fs (basePath db.oid 1259)).getD []).length = 0) ∧ y = none) := by
+  unfold dumpDb at h
+  simp only at h
+  unfold selectedDb isTemplateName
+  by_cases ht : isPrefixB (strBytes "template") db.name = true
+  · rw [if_pos ht] at h
+    injection h with h; subst h
+    exact Or.inr ⟨Or.inl (by simp [ht]), rfl⟩
+  · rw [if_neg ht] at h
+    have ht' : isPrefixB (strBytes "template") db.name = false := by simpa using ht
+    by_cases hf : (o.dbFilter != [] && db.name != o.dbFilter) = true
+    · rw [if_pos hf] at h
+      injection h with h; subst h
+      have : (o.dbFilter.isEmpty || db.name == o.dbFilter) = false := by
+        simp only [Bool.and_eq_true, bne_iff_ne, ne_eq] at hf
+        cases hdf : o.dbFilter with
+        | nil => exact absurd hdf hf.1
+        | cons x xs =>
+          have := hf.2
+          rw [hdf] at this
+          simp [this]
+      exact Or.inr ⟨Or.inl (by simp [this]), rfl⟩
+    · rw [if_neg hf] at h
+      have hsel : (o.dbFilter.isEmpty || db.name == o.dbFilter) = true := by
+        cases hdf : o.dbFilter with
+        | nil => rfl
+        | cons x xs =>
+          rw [hdf] at hf
+          simp only [Bool.and_eq_true, bne_iff_ne, ne_eq, not_and, Decidable.not_not] at hf
+          have := hf (by simp)
+          simp [this]
+      by_cases hlen : ((fs (basePath db.oid 1259)).getD []).length = 0
+      · rw [if_pos hlen] at h
+        injection h with h; subst h
+        exact Or.inr ⟨Or.inr hlen, rfl⟩
+      · rw [if_neg hlen] at h
+        cases hdf : dumpDatabaseFromFiles rr π ((fs (basePath db.oid 1259)).getD []) ((fs (basePath db.oid 1249)).getD [])
+            (some fun fn => fs (basePath db.oid fn)) o with
+        | error e => simp [hdf] at h
+        | ok ts =>
+          simp only [hdf, ok_bind, pure_eq_ok] at h
+          injection h with h; subst h
+          exact Or.inl ⟨by rw [ht', hsel]; rfl, hlen, ts, rfl, rfl⟩
+
+theorem classFile_length (l : Layout) (d : DbContent) (hwf : d.WF l) :
+    (encHeapOf pgClassCols classVals d.cls).length ≠ 0 := by
+  obtain ⟨hne, _, _, hcls, _, _, hfitc, _, _, _⟩ := hwf
+  have hlen := encHeapOf_length pgClassCols classVals d.cls (fun s hs =>
+    catalog_WF pgClassCols (classVals s.val) s.infomask (classVals_OK s.val (by have := (hcls s hs).1.2.1; omega))
+      (by decide) (hcls s hs).2.2.2.2.2) hfitc
+  rw [hlen]
+  cases hc : d.cls with
+  | nil => exact absurd hc hne
+  | cons _ _ => simp
+
+/-- the loop body of DumpDataDir for one live database -/
+theorem dumpDb_spec (dec : Dec) (hd : CatDec dec) (π : MapOrder TableInfo) (hπ : ∀ l, π l ~ l) (c : Cluster) (o : Options)
+    (fs : Bytes → Option Bytes) (hwf : c.WF) (htree : TreeOf c fs) (db : DbRow)
+    (hdump : selectedDb o db = true → ∀ d, c.content.lookup db.oid = some d → DbDumpable c.layout d o)
+    (y : Option DatabaseDump) (h : dumpDb (readRows dec) π fs o ⟨db.oid, db.name⟩ = .ok y) :
+    y.map normDb = if selectedDb o db = true then (c.content.lookup db.oid).map (expectedDb (varlenaVal dec) o db) else none := by
+  rcases dumpDb_cases _ π fs o db y h with ⟨hsel, hlen, ts, hdf, rfl⟩ | ⟨hcase, rfl⟩
+  · rw [if_pos hsel]
+    cases hlk : c.content.lookup db.oid with
+    | none => rw [htree.missing db.oid hlk] at hlen; simp at hlen
+    | some d =>
+      have hdwf : d.WF c.layout := hwf.2.2.2.2.2.2 (db.oid, d) (lookup_mem_pair _ _ _ hlk)
+      have hdd := hdump hsel d hlk
+      rw [htree.cls db.oid d hlk, htree.att db.oid d hlk] at hdf
+      simp only [Option.getD_some] at hdf
+      have := dumpDatabase_spec dec hd π hπ c.layout d o db (fun fn => fs (basePath db.oid fn)) hdwf hdd.schema
+        (fun r hr hs _ => by
+          obtain ⟨h1, h2, h3⟩ := hdd.files r hr hs
+          exact htree.heap db.oid d hlk r.filenode h1 h2 h3)
+        hdd.readable ts hdf
+      simp only [Option.map_some, normDb, this]
+      rfl
+  · rcases hcase with hsel | hlen
+    · simp [hsel]
+    · cases hlk : c.content.lookup db.oid with
+      | none => simp
+      | some d =>
+        have hdwf : d.WF c.layout := hwf.2.2.2.2.2.2 (db.oid, d) (lookup_mem_pair _ _ _ hlk)
+        rw [htree.cls db.oid d hlk] at hlen
+        exact absurd hlen (classFile_length c.layout d hdwf)
+
+def dbKey (d : DatabaseDump) : Nat × Bytes := (d.oid, d.name)
+
+/-- which database entries the loop body yields — no assumption beyond the catalog files being the encoded ones -/
+theorem dumpDb_key (dec : Dec) (π : MapOrder TableInfo) (c : Cluster) (o : Options) (val : Spec.Val)
+    (fs : Bytes → Option Bytes) (hwf : c.WF) (htree : TreeOf c fs) (db : DbRow)
+    (y : Option DatabaseDump) (h : dumpDb (readRows dec) π fs o ⟨db.oid, db.name⟩ = .ok y) :
+    y.map dbKey = (if selectedDb o db = true then (c.content.lookup db.oid).map (expectedDb val o db) else none).map dbKey := by
+  rcases dumpDb_cases _ π fs o db y h with ⟨hsel, hlen, ts, _, rfl⟩ | ⟨hcase, rfl⟩
+  · rw [if_pos hsel]
+    cases hlk : c.content.lookup db.oid with
+    | none => rw [htree.missing db.oid hlk] at hlen; simp at hlen
+    | some d => rfl
+  · rcases hcase with hsel | hlen
+    · simp [hsel]
+    · cases hlk : c.content.lookup db.oid with
+      | none => simp
+      | some d =>
+        have hdwf : d.WF c.layout := hwf.2.2.2.2.2.2 (db.oid, d) (lookup_mem_pair _ _ _ hlk)
+        rw [htree.cls db.oid d hlk] at hlen
+        exact absurd hlen (classFile_length c.layout d hdwf)
+
+theorem expectedDump_eq (val : Spec.Val) (c : Cluster) (o : Options) :
+    expectedDump val c o = c.dbs.live.filterMap fun db =>
+      if selectedDb o db = true then (c.content.lookup db.oid).map (expectedDb val o db) else none := by
+  unfold expectedDump
+  induction c.dbs.live with
+  | nil => rfl
+  | cons db rest ih =>
+    rw [filter_cons, filterMap_cons]
+    by_cases hs : selectedDb o db = true
+    · rw [if_pos hs, if_pos hs, filterMap_cons, ih]
+    · rw [if_neg hs, if_neg hs, ih]
+
+/-- **The whole data directory.** -/
+theorem dumpDataDir_spec (dec : Dec) (hd : CatDec dec) (π : MapOrder TableInfo) (hπ : ∀ l, π l ~ l) (c : Cluster) (o : Options)
+    (fs : Bytes → Option Bytes) (hwf : c.WF) (htree : TreeOf c fs)
+    (hdump : ∀ db ∈ c.dbs.live, selectedDb o db = true → ∀ d, c.content.lookup db.oid = some d → DbDumpable c.layout d o)
+    (r : DumpResult) (h : dumpDataDir (readRows dec) π fs o = .ok (some r)) :
+    r.map normDb = expectedDump (varlenaVal dec) c o := by
+  unfold dumpDataDir at h
+  rw [htree.global] at h
+  simp only at h
+  have hwf0 := hwf
+  obtain ⟨_, _, _, hdbs, hfit, _, _⟩ := hwf0
+  rw [parsePGDatabase_enc dec hd c.pgVersion c.dbs hdbs hfit] at h
+  simp only [ok_bind] at h
+  cases hc : collectM (dumpDb (readRows dec) π fs o) (c.dbs.live.map fun d => (⟨d.oid, d.name⟩ : DatabaseInfo)) with
+  | error e => simp [hc] at h
+  | ok r' =>
+    simp only [hc, ok_bind, pure_eq_ok] at h
+    injection h with h; injection h with h; subst h
+    rw [← PgVerif.Proofs.Rows.collectM_map (fun d : DbRow => (⟨d.oid, d.name⟩ : DatabaseInfo))] at hc
+    rw [expectedDump_eq]
+    exact collectM_filterMap_spec _ normDb _ c.dbs.live r' hc
+      (fun db hdb y hy => dumpDb_spec dec hd π hπ c o fs hwf htree db (hdump db hdb) y hy)
+
+
+
+/-- **Which databases are dumped.** -/
+theorem dumpDataDir_databases (dec : Dec) (hd : CatDec dec) (π : MapOrder TableInfo) (c : Cluster) (o : Options) (val : Spec.Val)
+    (fs : Bytes → Option Bytes) (hwf : c.WF) (htree : TreeOf c fs)
+    (r : DumpResult) (h : dumpDataDir (readRows dec) π fs o = .ok (some r)) :
+    r.map dbKey = (expectedDump val c o).map dbKey := by
+  unfold dumpDataDir at h
+  rw [htree.global] at h
+  simp only at h
+  have hwf0 := hwf
+  obtain ⟨_, _, _, hdbs, hfit, _, _⟩ := hwf0
+  rw [parsePGDatabase_enc dec hd c.pgVersion c.dbs hdbs hfit] at h
+  simp only [ok_bind] at h
+  cases hc : collectM (dumpDb (readRows dec) π fs o) (c.dbs.live.map fun d => (⟨d.oid, d.name⟩ : DatabaseInfo)) with
+  | error e => simp [hc] at h
+  | ok r' =>
+    simp only [hc, ok_bind, pure_eq_ok] at h
+    injection h with h; injection h with h; subst h
+    rw [← PgVerif.Proofs.Rows.collectM_map (fun d : DbRow => (⟨d.oid, d.name⟩ : DatabaseInfo))] at hc
+    rw [expectedDump_eq]
+    have := collectM_filterMap_spec _ dbKey
+      (fun db => (if selectedDb o db = true then (c.content.lookup db.oid).map (expectedDb val o db) else none).map dbKey)
+      c.dbs.live r' hc (fun db _ y hy => dumpDb_key dec π c o val fs hwf htree db y hy)
+    rw [this, map_filterMap]
+
+
+
+/-! ### the alignment the tool ends up with (finding A03) -/
+
+theorem alignFromChar_0_255 (x : Nat) (h : x = 0 ∨ x = 255) : alignFromChar x = 0 := by
+  rcases h with rfl | rfl <;> rfl
+
+/-- The byte the tool takes for `attalign` is never an alignment character on the 12–15 layouts (0xFF), nor on the
+16 layout for every type modifier PostgreSQL produces (−1, or below 2²⁴: the byte is 0xFF or 0x00): DecodeTuple then
+always uses its `typeAlign(typid, attlen)` fallback.  So "the alignment the tool ends up with is the true one"
+(`RelReadable.aligned`) is `typeAlign a.typid a.len = a.align` — the complement of the recorded class A03. -/
+theorem toolAlign_fallback (l : Layout) (a : AttrRow) (h : l ≠ .v16 ∨ (-16777216 ≤ a.typmod ∧ a.typmod < 16777216)) :
+    colAlign (toolColumn (toolAlignByte l) a) = typeAlign a.typid a.len := by
+  have hb : (toolAlignByte l a).toNat = 0 ∨ (toolAlignByte l a).toNat = 255 := by
+    by_cases hl : l = .v16
+    · subst hl
+      rcases h with h | h
+      · exact absurd rfl h
+      · simp only [toolAlignByte, b3, UInt8.toNat_ofNat']
+        unfold ofSigned
+        simp only [Nat.reducePow]
+        omega
+    · rw [toolAlignByte_15 l hl]
+      right
+      rw [ofSigned32_neg1]
+      show (b3 4294967295).toNat = 255
+      decide
+  unfold colAlign toolColumn
+  simp only [alignFromChar_0_255 _ hb, if_true]
 
 end PgVerif.Proofs.Cluster
